@@ -10,6 +10,7 @@ import (
 	"flag"
 	"fmt"
 	"os"
+	"os/exec"
 	"path/filepath"
 	"runtime"
 	"sort"
@@ -60,7 +61,7 @@ type Run struct {
 	Assume   []string
 	samples  []any
 	deadline time.Time
-	Quiet    bool // do not print one line per scenario
+	Quiet    bool   // do not print one line per scenario
 	Part     string // non-empty: this process is a sub-part of check ID (own evidence file, merged by the main binary)
 	allSigs  map[string]bool
 }
@@ -106,6 +107,63 @@ func ReadPart(id, part string) (*PartResult, error) {
 		return nil, err
 	}
 	return &p, nil
+}
+
+// RunPart runs the auxiliary binary <this binary>-<part> (built by run.sh /
+// build.sh next to the main one) with the tier of this run and the standard
+// streams passed through, and merges what it wrote: its coverage goes under
+// coverage["part_<part>"], its counts are added to the totals, its violations
+// (already printed by it, with replay files of its own) make this run exit 1.
+func (r *Run) RunPart(part string, extraArgs ...string) {
+	os.Remove(filepath.Join(Dir(), "evidence", "parts", r.ID+"."+part+".json"))
+	rc := RunPartBinary(part, append([]string{"-tier", r.Tier}, extraArgs...)...)
+	p, err := ReadPart(r.ID, part)
+	if err != nil || rc >= 2 {
+		r.Infra("part %s: exit %d, evidence: %v", part, rc, err)
+		return
+	}
+	if rc == 1 {
+		r.NoteExternalViolations(p.Violations, "part "+part)
+	}
+	if kh, ok := p.Coverage["known_findings_reobserved"].([]any); ok {
+		for _, k := range kh {
+			r.NoteKnownHit(fmt.Sprint(k))
+		}
+	}
+	delete(p.Coverage, "known_findings_reobserved")
+	r.Cov["part_"+part] = p.Coverage
+	for _, k := range []string{"evaluations", "states", "transitions", "traces_validated_against_impl", "distinct_nontrivial"} {
+		var a int64
+		switch v := r.Cov[k].(type) {
+		case int64:
+			a = v
+		case int:
+			a = int64(v)
+		case float64:
+			a = int64(v)
+		}
+		if b, ok := p.Coverage[k].(float64); ok {
+			r.Cov[k] = a + int64(b)
+		}
+	}
+	if ex, ok := p.Coverage["exhaustive"].(bool); ok && !ex {
+		r.Cov["exhaustive"] = false
+	}
+	r.Assume = append(r.Assume, p.Assume...)
+}
+
+// RunPartBinary executes <this binary>-<part> and returns its exit code.
+func RunPartBinary(part string, args ...string) int {
+	cmd := exec.Command(os.Args[0]+"-"+part, args...)
+	cmd.Stdout, cmd.Stderr = os.Stdout, os.Stderr
+	if err := cmd.Run(); err != nil {
+		if ee, ok := err.(*exec.ExitError); ok {
+			return ee.ExitCode()
+		}
+		fmt.Fprintln(os.Stderr, "part", part+":", err)
+		return 2
+	}
+	return 0
 }
 
 // NoteExternalViolations makes Finish exit 1 for violations an auxiliary
